@@ -66,6 +66,7 @@ fn eval(args: &[String]) -> i32 {
                 let r = run_input(&mut ctx, &format!("let v_q = {text}"));
                 if r.outcome != "ok" {
                     outs.push(json!({"outcome": r.outcome, "kind": r.kind, "msg": r.message}));
+                    if r.outcome == "panic" { ctx = base.clone(); }   // a panic leaves the session in an undefined state
                     continue;
                 }
                 let raw = numbat::verif::global_raw(&ctx, "v_q").map(|v| value_json(&v)).unwrap_or(J::Null);
@@ -74,6 +75,19 @@ fn eval(args: &[String]) -> i32 {
                     let r2 = run_input(&mut ctx, text);
                     o["shown"] = match &r2.value { Some(v) => value_json(v), None => J::Null };
                     o["shown_outcome"] = json!(r2.outcome);
+                    if r2.outcome == "panic" {
+                        o["shown_msg"] = json!(r2.message);
+                        ctx = base.clone();
+                        outs.push(o);
+                        continue;
+                    }
+                }
+                if c["texts"].as_bool().unwrap_or(false) {
+                    // the same value through string interpolation and through print
+                    let r3 = run_input(&mut ctx, &format!("\"{{{text}}}\""));
+                    o["interp"] = match &r3.value { Some(Value::String(s)) => json!(s.to_string()), _ => J::Null };
+                    let r4 = run_input(&mut ctx, &format!("print({text})"));
+                    o["printed"] = json!(r4.out);
                 }
                 outs.push(o);
             }
@@ -86,6 +100,33 @@ fn eval(args: &[String]) -> i32 {
     0
 }
 
+/// assert-run --cases f --out f: each case {id, code, marker}: the code (assertion + marker statements) is run as ONE
+/// input on a shared prelude context; reports outcome kind, printed lines and whether the marker variable exists
+/// afterwards and whether the session's variable list is otherwise unchanged.
+fn assert_run(args: &[String]) -> i32 {
+    let cases = read_ndjson(arg(args, "--cases").expect("--cases"));
+    let threads = arg_u64(args, "--threads", 16) as usize;
+    let base = match prelude_ctx() { Ok(c) => c, Err(e) => { eprintln!("{e}"); return 2; } };
+    let chunk = cases.len().div_ceil(threads.max(1)).max(1);
+    let chunks: Vec<&[J]> = cases.chunks(chunk).collect();
+    let results: Vec<Vec<J>> = par_map(&chunks, threads, |ch| {
+        let mut ctx = base.clone();
+        ch.iter().map(|c| {
+            let marker = c["marker"].as_str().unwrap();
+            let before: std::collections::BTreeSet<String> = ctx.variable_names().map(|s| s.to_string()).collect();
+            let r = run_input(&mut ctx, c["code"].as_str().unwrap());
+            let after: std::collections::BTreeSet<String> = ctx.variable_names().map(|s| s.to_string()).collect();
+            let new: Vec<String> = after.difference(&before).cloned().collect();
+            json!({"id": c["id"], "outcome": r.outcome, "kind": r.kind, "msg": r.message, "out": r.out,
+                   "defined": after.contains(marker), "new_names": new})
+        }).collect()
+    });
+    let mut out = Out::new(arg(args, "--out"));
+    for r in results.iter().flatten() { out.line(r); }
+    out.flush();
+    0
+}
+
 fn main() {
-    nvh::main_dispatch(&[("dump", dump), ("eval", eval)]);
+    nvh::main_dispatch(&[("dump", dump), ("eval", eval), ("assert-run", assert_run)]);
 }
